@@ -242,5 +242,8 @@ def run(chk):
                            '%s:%d' % (fi.module.relpath, s_.lineno), key='C09-K|%s|%s|%s' % (fq, t.func.qualname, p_))
     chk.floor('index hand-offs between positional APIs', nk, 3)
 
+    from . import codelemmas
+    codelemmas.open_ended(chk, c, 'C09-Z')
+
     chk.assume('collections.abc.MutableSequence mixins (pop, extend, clear, reverse, __iadd__) are written in terms of '
                '__getitem__/__setitem__/__delitem__/insert/__len__ (axiom table in callgraph.py)')
